@@ -18,7 +18,12 @@
 
 static double sp_of(const char* num, const char* sh) { return ldexp(strtod(num, NULL), -atoi(sh)); }
 
-static const char* errname(size_t r) { return ZDICT_getErrorName(r); }
+static const char* errname(size_t r) {      /* error name with '_' for spaces: results stay single tokens */
+    static char buf[128]; size_t i;
+    snprintf(buf, sizeof buf, "%s", ZDICT_getErrorName(r));
+    for (i = 0; buf[i]; i++) if (buf[i] == ' ') buf[i] = '_';
+    return buf;
+}
 
 /* ---------------------------------------------------------------- commands (run in the child) */
 static void cmd_chk(char** t, int n) {
